@@ -400,6 +400,106 @@ pub fn value_sweep(mode: Mode, run: &mut Run) -> Stats {
     total
 }
 
+/// `PrintChar<CHAR>` for characters the instruction enum has no variant for (the enum only carries
+/// space, newline and period), performed directly; and `PrintString` with non-ASCII text.  The
+/// printed output is text: the character's UTF-8 encoding is appended, nothing else changes.
+macro_rules! print_chars {
+    ($($c:literal),*) => {
+        const PRINT_CHARS: &[char] = &[$($c),*];
+        fn perform_print_char(c: char, s: PushState) -> Option<Result<PushState, push::error::Error<PushState, push::instruction::instruction_error::PushInstructionError>>> {
+            use push::instruction::{printing::PrintChar, Instruction};
+            match c {
+                $($c => Some(PrintChar::<$c>::new().perform(s)),)*
+                _ => None,
+            }
+        }
+    };
+}
+print_chars!('x', '\0', '\t', '~', '\u{7f}', '\u{80}', '\u{e9}', '\u{ff}', '\u{100}', '\u{141}', '\u{3bb}', '\u{7ff}', '\u{800}', '\u{2192}', '\u{ffff}', '\u{10000}', '\u{1f600}', '\u{10ffff}');
+
+fn print_pre_states() -> Vec<RState> {
+    let mut v = vec![];
+    for out in [&b""[..], b"ab", "\u{e9}\n".as_bytes()] {
+        for caps in [[0usize; 4], [4; 4]] {
+            let mut r = RState::empty(caps);
+            r.out = out.to_vec();
+            v.push(r.clone());
+            if caps[0] > 0 {
+                r.int = vec![5, -1];
+                r.boolean = vec![true];
+                r.float = vec![1.5];
+                r.exec = vec![PushProgram::Block(vec![])];
+                v.push(r);
+            }
+        }
+    }
+    v
+}
+
+fn check_print_char(c: char, pre: &RState) -> Option<(String, String)> {
+    let real = make_real(pre, 100);
+    let mut want = pre.clone();
+    let mut buf = [0u8; 4];
+    want.out.extend_from_slice(c.encode_utf8(&mut buf).as_bytes());
+    let name = format!("PrintChar<{:?}>", c);
+    match mcx::guarded(|| perform_print_char(c, real)) {
+        Err(p) => Some((format!("perform/{name}/panic"), format!("{name} panicked in state {}: {p}", rstate_json(pre)))),
+        Ok(None) => Some((format!("machinery/{name}"), format!("{name} is not in the list of characters"))),
+        Ok(Some(r)) => {
+            let o = classify(r);
+            if o.kind != Kind::Ok || !real_matches(&o.state, &want) {
+                Some((
+                    format!("perform/{name}"),
+                    format!(
+                        "{name} in state {} gave {:?} with state {} (output bytes {:?}); printing appends the character's text: output bytes {:?}, stacks unchanged",
+                        rstate_json(pre),
+                        o.kind,
+                        rstate_json(&observe(&o.state)),
+                        observe_out(&o.state),
+                        want.out
+                    ),
+                ))
+            } else {
+                None
+            }
+        }
+    }
+}
+
+pub fn print_texts(mode: Mode, run: &mut Run) -> Stats {
+    let mut st = Stats::default();
+    let pres = print_pre_states();
+    for c in PRINT_CHARS {
+        for pre in &pres {
+            st.transitions += 1;
+            st.states += 1;
+            if let Some((k, w)) = check_print_char(*c, pre) {
+                if k.starts_with("machinery/") {
+                    run.machinery(w);
+                } else {
+                    run.violation(k, w, json!({"check": format!("{mode:?}"), "kind": "print-char", "char": *c as u32, "state": rstate_json(pre), "state_full": rstate_ser(pre)}));
+                }
+            }
+        }
+    }
+    let long: String = "\u{e9}\u{2192}z".repeat(3000);
+    for text in ["", "\u{e9}", "\u{2192}\u{1f600}a", "a\nb\0c", long.as_str()] {
+        let instr = PushInstruction::PrintString(push::instruction::printing::PrintString::new(text.to_string()));
+        let name = format!("PrintString({})", if text.len() > 40 { "long" } else { text });
+        for pre in &pres {
+            st.states += 1;
+            let real = make_real(pre, 100);
+            let (v, _) = check_perform(mode, &real, pre, &instr, &name, &mut st);
+            if let Some((k, w)) = v {
+                let w: String = w.chars().take(600).collect();
+                run.violation(k, w, json!({"check": format!("{mode:?}"), "kind": "perform", "state": rstate_json(pre), "state_full": rstate_ser(pre), "instruction": name}));
+            }
+        }
+    }
+    run.bound("e.print_chars", json!(PRINT_CHARS.iter().map(|c| format!("U+{:04X}", *c as u32)).collect::<Vec<_>>()));
+    st
+}
+
 pub fn set_caps(s: &mut PushState, caps: [usize; 4]) {
     use push::push_vm::HasStack;
     s.stack_mut::<PushProgram>().set_max_stack_size(caps[EXEC]);
@@ -693,6 +793,25 @@ pub fn replay(mode: Mode, v: &Value) -> bool {
                 }
             }
         }
+        Some("print-char") => {
+            let (Some(r), Some(c)) = (rstate_de(&v["state_full"]), v["char"].as_u64().and_then(|c| char::from_u32(c as u32))) else {
+                println!("cannot decode state or character");
+                return false;
+            };
+            println!("state: {}", rstate_json(&r));
+            println!("instruction: PrintChar<{c:?}>");
+            match check_print_char(c, &r) {
+                Some((k, w)) => {
+                    println!("MISMATCH [{k}]: {w}");
+                    println!("replay: violation reproduced");
+                    false
+                }
+                None => {
+                    println!("replay: property held");
+                    true
+                }
+            }
+        }
         Some("run") => crate::interp::replay_run(mode, v),
         _ => {
             println!("unknown replay kind");
@@ -708,7 +827,11 @@ pub fn run(mode: Mode, run: &mut Run) {
     mcx::watch::start(&run.property, &run.tier, std::time::Duration::from_secs(60));
     let b = boundary_product(mode, run);
     let a = transition_system(mode, run);
-    let d = value_sweep(mode, run);
+    let mut d = value_sweep(mode, run);
+    if mode == Mode::C01 {
+        let e = print_texts(mode, run);
+        d.merge(&e);
+    }
     let mut rows = b.rows.clone();
     for (k, v) in a.rows.iter().chain(d.rows.iter()) {
         let e = rows.entry(k.clone()).or_default();
@@ -758,7 +881,7 @@ pub fn run(mode: Mode, run: &mut Run) {
     run.distinct_nontrivial = nontrivial;
     run.note("rows", json!(rows.iter().map(|(k, v)| (k.clone(), json!({"ok": v[0], "skip": v[1], "fatal": v[2]}))).collect::<serde_json::Map<_, _>>()));
     run.rule = match mode {
-        Mode::C01 => "every instruction applied (real Instruction::perform / State::perform) in every state of the boundary family x 10 capacity patterns and in every state of a stateright BFS over instruction sequences; every genome over the gene alphabet up to the length bound run by the real run_to_completion under every step limit and capacity; each result compared with the set PushRef admits. distinct_nontrivial = (instruction, outcome kind) pairs reached".into(),
+        Mode::C01 => "every instruction applied (real Instruction::perform / State::perform) in every state of the boundary family x 10 capacity patterns and in every state of a stateright BFS over instruction sequences; every genome over the gene alphabet up to the length bound run by the real run_to_completion under every step limit and capacity; each result compared with the set PushRef admits; PrintChar<C> for 18 characters of every UTF-8 length performed directly and PrintString with non-ASCII text. distinct_nontrivial = (instruction, outcome kind) pairs reached".into(),
         Mode::C02 => "same exploration as C01 with a reference-free oracle: whenever perform returns Err(e), e.state() == the state before (full PushState equality); plus run_to_completion([i] ++ Q) == run_to_completion(Q) for every recoverably failing (state, i) of a family and every continuation Q. distinct_nontrivial = (instruction, outcome kind) pairs reached".into(),
     };
     run.assumptions = vec![
